@@ -30,7 +30,7 @@ def i32(extra=()):
 
 
 # strings that mean something to code that (mis)uses a text as a template, a path, a number or a pattern
-TRICKY_TEXTS = ["{}", "Amp {L}", "{0}", "%s", "100%", "%(name)s", "a\\b", "'quoted'", '"dq"', "a/b", "..", " lead", "trail ", "\t", "1", "0", "-1", "None", "e\u0301", "\u00e9", "A\u030a", "\ufb01", "\u200b", "\U0001f3b5", "a\nb"]
+TRICKY_TEXTS = ["{}", "Amp {L}", "{0}", "%s", "100%", "%(name)s", "a\\b", "'quoted'", '"dq"', "a/b", "..", " lead", "trail ", "\t", "1", "0", "-1", "None", "e\u0301", "\u00e9", "A\u030a", "\ufb01", "\u200b", "\U0001f3b5", "a\nb", "\ufeffIntro", "\ufeff", "x\ufeff", "\ufffe", "\ufffd", "\u202e", "\x7f", "\x01", "\r\n"]
 
 
 def text_no_nul(max_size=80):
